@@ -19,7 +19,7 @@ from ..index import AnalysisError
 from .. import astq
 from ._c09_prov import (Prov, Chain, NONE, alts, const, is_const, seq_shape, strip_views, interface_positions,
                         bind_interface, is_clone_of, none_valued, note_base_attrs, mentions, forwarded, analysed,
-                        check_first_call_only)
+                        check_first_call_only, borrow)
 
 PIPE = "sktime/forecasting/compose/_pipeline.py"
 ENS = "sktime/forecasting/compose/_ensemble.py"
@@ -398,6 +398,62 @@ def r1_predict(ctx, repo, cls):
     ctx.check(pol is False, "R1", C + ":skip-tag:polarity", "inverse applied iff the transformer does NOT carry the tag",
               "inverted tag test: the inverse transform is applied only to transformers tagged `%s`" % SKIP_TAG, loc,
               witness={"fact": "%s is %s" % (res.fmt(("ret", te.id)), pol)})
+
+
+def r1_tag_helpers(ctx, repo):
+    """R1 models ``_has_tag(est, tag)`` as "the value of that tag for est's class, False when undeclared, the most
+    derived class winning".  Decide that contract from the helpers' own source."""
+    umod = repo.module("sktime/utils/__init__.py")
+    fn = repo.func("sktime/utils/__init__.py", "_has_tag")
+    res = analysed(ctx, Prov(repo).run_func(umod, fn))
+    C = "_has_tag"
+    loc0 = ctx.loc(umod, fn)
+    pn = astq.param_names(fn)
+    est, tag = P(pn[0]), P(pn[1])
+    rets = [v for v, _ in res.returns]
+    verdict = None
+    why = ""
+    if len(rets) == 1:
+        v = rets[0]
+        e = res.ret_event(v)
+        tags_of = lambda t: (res.ret_event(t) is not None and res.ret_event(t).name == "_all_tags" and res.ret_event(t).recv == est)  # noqa: E731
+        if e is not None and e.kind == "call" and e.target.kind == "attr" and e.name == "get" and tags_of(e.recv) and e.args[:1] == (tag,):
+            d = e.arg(1, "default")
+            if d is None or (is_const(d) and not d[1]):
+                verdict = True
+            elif is_const(d):
+                verdict, why = False, "an undeclared tag defaults to %r" % (d[1],)
+        elif isinstance(v, tuple) and v[0] == "item" and tags_of(v[1]) and v[2] == tag:
+            verdict = True
+        elif isinstance(v, tuple) and v[0] == "cmp" and v[1] in ("In", "NotIn") and v[2] == tag and (tags_of(v[3]) or (
+                res.ret_event(v[3]) is not None and res.ret_event(v[3]).name == "keys" and tags_of(res.ret_event(v[3]).recv))):
+            verdict, why = False, "it tests whether the tag is *declared* (`tag in tags`), so a tag declared with the value False counts as set"
+    ctx.check(verdict, "R1", C + ":returns-tag-value", "_has_tag returns the tag's value (False when undeclared)",
+              "_has_tag does not return the value of the tag: %s" % (why or [res.fmt(v) for v in rets]), loc0,
+              witness={"class": "a transformer with _tags = {'skip-inverse-transform': False}", "effect": "its inverse transform is skipped in _predict"})
+    # _all_tags: the most derived class's declaration wins
+    bcls = repo.cls("sktime/base/_base.py:BaseEstimator")
+    afn = repo.func("sktime/base/_base.py", "BaseEstimator._all_tags")
+    ares = analysed(ctx, Prov(repo).run_method(bcls, "_all_tags"))
+    C = "BaseEstimator._all_tags"
+    aloc = ctx.loc(bcls.module, afn)
+    ups = [e for e in ares.calls("update", kind=("call",)) if e.target.kind == "attr" and ares.loops_of(e)]
+    verdict = None
+    why = ""
+    if len(ups) == 1 and [v for v, _ in ares.returns] == [ups[0].recv]:
+        u = ups[0]
+        L = ares.loops[ares.loops_of(u)[-1]]
+        base, rev, sl = seq_shape(L.iter)
+        be = ares.ret_event(base)
+        a0 = u.args[0] if u.args else None
+        if be is not None and be.target is not None and be.target.kind == "ext" and be.target.ext == "inspect.getmro" and be.args[:1] == (("self",),) \
+                and a0 == ("getattr", ("elem", L.iter, L.id), "_tags") and not ares.early_exits(L.id):
+            # dict.update: later updates win; getmro lists the most derived class first
+            verdict = rev
+            why = "the MRO is walked most-derived-first and every class overwrites the entries collected so far, so a parent's value overrides the subclass's"
+    ctx.check(verdict, "R1", C + ":subclass-overrides-parent", "tags are merged base-first: a subclass's declaration overrides its parents'",
+              "tag inheritance is inverted: %s" % why if verdict is False else "cannot interpret how the class tags are merged", aloc,
+              witness={"classes": "class T(Imputer): _tags = {'skip-inverse-transform': False}", "effect": "T still counts as skip-inverse-transform"})
 
 
 def r1_update(ctx, repo, cls):
@@ -934,6 +990,16 @@ def r3(ctx, repo):
                       "the result is %s, not the selected forecaster's forecast" % [r.fmt(v) for v in rv], loc_of(e))
 
 
+def r3_inherited(ctx, repo):
+    """The composites inherit update_predict_single/_update_predict_single from the base class: "behaves exactly like its
+    selected member / its members" also on that path needs the base step to forward every option (C10-R3 decides it)."""
+    borrow(ctx, "C10", "r3_steps", (), "R3", "composites.update_predict_single:inherited-step",
+           lambda r: r["construct"].startswith(("_SktimeForecaster._update_predict_single", "_SktimeForecaster.update_predict_single[",
+                                                "BaseForecaster.update_predict_single")),
+           "the inherited update-then-predict step (all options forwarded to update and predict)",
+           roots=("sktime/forecasting/base/_sktime.py", "sktime/forecasting/base/_base.py", ENS, STACK, ONLINE))
+
+
 # ------------------------------------------------------------------------------------------ R4 stacking
 def r4(ctx, repo):
     cls = repo.cls(STACK + ":StackingForecaster")
@@ -1120,6 +1186,10 @@ def r4(ctx, repo):
         ok_ret = len(rv) == 1 and mentions(pres, rv[0], ("ret", rp.id))
         ctx.check(ok_ret, "R4", C2 + ":result", "the forecast is built from the meta-regressor's prediction",
                   "the returned forecast does not come from the meta-regressor: %s" % [pres.fmt(v) for v in rv], ploc)
+    # the split itself (train = everything before the window, test = cutoff + fh, no leakage) is C01's obligation
+    borrow(ctx, "C01", "check_single", (), "R4", C + ":hold-out-split:splitter-contract",
+           lambda r: r["construct"].startswith("SingleWindowSplitter"), "the SingleWindowSplitter contract the hold-out relies on "
+           "(training positions end at the cutoff, test = cutoff + fh)", roots=("sktime/forecasting/model_selection/_split.py",))
     # information: argument-role slip in _predict_forecasters(X)
     for e in res.calls("_predict_forecasters", kind=("inline",)):
         if e.bound and e.bound.get("fh") == P("X"):
@@ -1143,6 +1213,7 @@ def run(ctx):
         repo.func(PIPE, "TransformedTargetForecaster." + anchor)
     r1_fit(ctx, repo, pipe)
     r1_predict(ctx, repo, pipe)
+    r1_tag_helpers(ctx, repo)
     r1_update(ctx, repo, pipe)
     r1_transform(ctx, repo, pipe, "transform", False)
     r1_transform(ctx, repo, pipe, "inverse_transform", True)
@@ -1153,6 +1224,7 @@ def run(ctx):
     r2_fit(ctx, repo, repo.cls(ONLINE + ":OnlineEnsembleForecaster"))
     r2_predict(ctx, repo, ens)
     r3(ctx, repo)
+    r3_inherited(ctx, repo)
     r4(ctx, repo)
     # floors: a whole family of instances vanishing fails closed; a refactoring that merges a few
     # instances (e.g. one dynamic aggregator call instead of four branches) does not
